@@ -132,12 +132,16 @@ pub enum Clock {
     ByRead { steps: Vec<(u64, Duration)> },
 }
 
+/// gate numbers from here on mean "park at clock read number (gate - READ_GATE)" instead of a poll
+pub const READ_GATE: u64 = 1 << 40;
+
 #[derive(Clone, Debug)]
 pub struct Plan {
     /// None = the original rule (every 100 000 negamax nodes); Some((interval, min_nodes))
     pub poll: Option<(u64, u64)>,
     pub clock: Clock,
-    /// 1-based poll indices of this `go` at which the search thread parks
+    /// 1-based poll indices of this `go` at which the search thread parks; READ_GATE + r parks at the
+    /// r-th clock read instead
     pub gates: Vec<u64>,
 }
 
@@ -158,6 +162,8 @@ pub struct Counters {
     pub last_poll_nodes: u64,
     /// negamax node count at each poll (only kept when the plan asks for it)
     pub poll_nodes: Vec<u64>,
+    /// max_negamax_nodes at the moment the thread parked at a clock-read gate
+    pub nodes_at_read_park: Option<u64>,
 }
 
 pub struct Shared {
@@ -225,39 +231,46 @@ impl SearchHook for Hook {
     }
 
     fn elapsed(&mut self, total_nodes: u64) -> Option<Duration> {
-        let p = self.shared.plan.lock().unwrap();
-        match &p.clock {
-            Clock::Real => None,
-            Clock::Rate { ns_per_node, jumps } => {
-                let mut c = self.shared.counters.lock().unwrap();
-                c.clock_reads += 1;
-                let idx = c.clock_reads;
-                let mut d = Duration::from_nanos(ns_per_node.saturating_mul(total_nodes));
-                for (from, extra) in jumps {
-                    if idx >= *from {
-                        d += *extra;
+        let (answer, idx, gated) = {
+            let p = self.shared.plan.lock().unwrap();
+            let mut c = self.shared.counters.lock().unwrap();
+            c.clock_reads += 1;
+            let idx = c.clock_reads;
+            let answer = match &p.clock {
+                Clock::Real => None,
+                Clock::Rate { ns_per_node, jumps } => {
+                    let mut d = Duration::from_nanos(ns_per_node.saturating_mul(total_nodes));
+                    for (from, extra) in jumps {
+                        if idx >= *from {
+                            d += *extra;
+                        }
                     }
+                    Some(d)
                 }
-                Some(d)
-            }
-            Clock::AtPoll { k, before, after } => {
-                let mut c = self.shared.counters.lock().unwrap();
-                c.clock_reads += 1;
-                Some(if c.polls >= *k { *after } else { *before })
-            }
-            Clock::ByRead { steps } => {
-                let mut c = self.shared.counters.lock().unwrap();
-                c.clock_reads += 1;
-                let idx = c.clock_reads;
-                let mut d = Duration::ZERO;
-                for (from, v) in steps {
-                    if idx >= *from {
-                        d = *v;
+                Clock::AtPoll { k, before, after } => Some(if c.polls >= *k { *after } else { *before }),
+                Clock::ByRead { steps } => {
+                    let mut d = Duration::ZERO;
+                    for (from, v) in steps {
+                        if idx >= *from {
+                            d = *v;
+                        }
                     }
+                    Some(d)
                 }
-                Some(d)
+            };
+            let gated = p.gates.contains(&(READ_GATE + idx));
+            if gated {
+                c.nodes_at_read_park = Some(c.max_negamax_nodes);
             }
+            (answer, idx, gated)
+        };
+        if gated {
+            // a clock read is the other place where the search thread is observable from outside:
+            // park here so that messages can arrive between two polls
+            let _ = self.tx.send(Ev::Parked(READ_GATE + idx));
+            let _ = self.release.recv();
         }
+        answer
     }
 
     fn board(&mut self, when: &'static str, fen: &str) {
